@@ -24,6 +24,30 @@ CROSS = {"ELECTRICAL_CHARGE": "C", "ANGULAR_VELOCITY": "deg", "GEOGRAPHICAL_LATI
          "ANGLE": "c", "SPEED": "bar", "PRESSURE": "kts", "LENGTH": "psi", "POTENTIAL_DIFFERENCE": "kts", "TIME": "c", "DURATION": "F", "VOLUME": "bar", "FREQUENCY": "deg"}
 
 
+def rounding_boundary_raws(f, rnd, per=5):
+    """raw values whose converted value lies next to a rounding boundary of the library's conversion (°F to whole degrees, °C to 0.01,
+    degrees to whole degrees, knots to 0.1): where a conversion that rounds twice, or with another rule, first shows"""
+    import math
+    q, res, ofs = f.get("PhysicalQuantity"), f.get("Resolution"), f.get("Offset", 0)
+    rr = pgncorr.raw_range(f)
+    if not rr or not res:
+        return []
+    lo, hi = rr[0] * res + ofs, rr[1] * res + ofs
+    inv = {"TEMPERATURE": [(lambda k: (k + 0.5 - 32) * 5 / 9 + 273.15, lambda v: (v - 273.15) * 9 / 5 + 32, 1), (lambda k: (k + 0.5) / 100 + 273.15, lambda v: (v - 273.15) * 100, 1)],
+           "ANGLE": [(lambda k: (k + 0.5) * math.pi / 180, lambda v: v * 180 / math.pi, 1)],
+           "SPEED": [(lambda k: (k + 0.5) / 10 * 1852 / 3600, lambda v: v * 3600 / 1852 * 10, 1)]}.get(q, [])
+    out = []
+    for back, fwd, _ in inv:
+        a, b = sorted((fwd(lo), fwd(hi)))
+        if b - a < 2:
+            continue
+        for _ in range(per):
+            k = rnd.randint(int(a) + 1, int(b) - 1)
+            r0 = round((back(k) - ofs) / res)
+            out += [r for r in (r0 - 1, r0, r0 + 1) if rr[0] <= r <= rr[1]]
+    return out
+
+
 def suite_units(ctx):
     harness.load_repo()
     db = pgncorr.Db(ctx["repo"])
@@ -58,7 +82,7 @@ def suite_units(ctx):
             n = f["BitLength"]
             key = (f["PhysicalQuantity"], n, bool(f.get("Signed")), repr(f["Resolution"]))
             rr = pgncorr.raw_range(f)
-            vals = pgncorr.boundary_raws(f, rnd)
+            vals = pgncorr.boundary_raws(f, rnd) + rounding_boundary_raws(f, rnd)
             if rr:
                 full = ctx["tier"] != "quick" and n <= 16 and key not in done
                 lo, hi = max(rr[0], -(1 << 15)), min(rr[1], 1 << 16)
@@ -97,14 +121,26 @@ def monitor(ctx):
             ("ANGLE", "deg"): ("Deg", lambda v: v * 180 / math.pi, 0.5), ("SPEED", "kts"): ("kts", lambda v: v * 3600 / 1852, 0.05)}
     SI_UNIT = {"TEMPERATURE": "K", "PRESSURE": "Pa", "ANGLE": "rad", "SPEED": "m/s"}
     n = 0
+    maps = [{"TEMPERATURE": "C", "ANGLE": "DEG", "SPEED": "Kts", "PRESSURE": "BAR"}, {"TEMPERATURE": "f", "PRESSURE": "psi"}, {"TEMPERATURE": "x", "ANGLE": "rad"},
+            {"PRESSURE": "kPa", "TEMPERATURE": "C", "SPEED": "mph", "ANGLE": "deg"}, {"TEMPERATURE": "K", "PRESSURE": "psi", "ANGLE": "rad", "SPEED": "kts"}, CROSS, CROSS]
+    jobs = []
     for sfx, p in db.defs.items():
         if not all("BitOffset" in f and "BitLength" in f for f in p["Fields"]) or not any(f.get("PhysicalQuantity") for f in p["Fields"]):
             continue
-        pr = rnd.choice([{"TEMPERATURE": "C", "ANGLE": "DEG", "SPEED": "Kts", "PRESSURE": "BAR"}, {"TEMPERATURE": "f", "PRESSURE": "psi"}, {"TEMPERATURE": "x", "ANGLE": "rad"},
-                         {"PRESSURE": "kPa", "TEMPERATURE": "C", "SPEED": "mph", "ANGLE": "deg"}, {"TEMPERATURE": "K", "PRESSURE": "psi", "ANGLE": "rad", "SPEED": "kts"}, CROSS, CROSS])
+        if any(f.get("PhysicalQuantity") in SI_UNIT for f in p["Fields"]):
+            jobs += [(sfx, p, maps[0]), (sfx, p, maps[1]), (sfx, p, rnd.choice(maps[2:]))]       # every conversion of every convertible field
+        else:
+            jobs.append((sfx, p, rnd.choice(maps)))
+    for sfx, p, pr in jobs:
         d1 = NMEA2000Decoder(preferred_units={PQ[k]: v for k, v in pr.items()})
         d0 = NMEA2000Decoder()
-        for x in pgncorr.payloads_for(p, rnd, True, 3)[:80]:
+        base = pgncorr.base_payload(p, rnd, "zero")
+        extra = []
+        for f, o in pgncorr.layout(p):
+            if f.get("PhysicalQuantity") in SI_UNIT:
+                nbits = f["BitLength"]
+                extra += [(base & ~(((1 << nbits) - 1) << o)) | ((v & ((1 << nbits) - 1)) << o) for v in rounding_boundary_raws(f, rnd, 8)]
+        for x in pgncorr.payloads_for(p, rnd, True, 3)[:80] + extra:
             nb = max(1, (p.get("Length") or (x.bit_length() + 7) // 8))
             data = (x & ((1 << (8 * nb)) - 1)).to_bytes(nb, "little")[::-1]
             try:
